@@ -340,7 +340,7 @@ extern "C" int misc()
 {
   MStr ma, mb; symStr(ma, VF_L + 1); symStr(mb, VF_L);
   String a((const char*)ma.v, ma.n), b((const char*)mb.v, mb.n);
-  unsigned q = vf_pick(8);
+  unsigned q = vf_pick(9);
   switch(q)
   {
   case 6: { // the String's own C-string view as a printf argument (the only way to name the String itself there)
@@ -359,6 +359,18 @@ extern "C" int misc()
     MStr part; part.set(ma.v + from, len);
     if(vf_pick(2)) { s.append((const char*)s + from, len); MStr want = ma; want.append(part); checkOne(s, want); }
     else { s.prepend((const char*)s + from, len); MStr want = part; want.append(ma); checkOne(s, want); }
+    checkOne(a, ma);
+    break; }
+  case 8: { // a String attached to a range of the target's own bytes (a non-owning view) as the argument
+    if(ma.n == 0) break;
+    unsigned from = vf_pick(ma.n), len = vf_pick(ma.n - from + 1);
+    String s; s.append(a);                                           // owned, unshared
+    String view; view.attach((const char*)s + from, len);
+    MStr part; part.set(ma.v + from, len);
+    unsigned what = vf_pick(3);
+    if(what == 0) { s = view; checkOne(s, part); }
+    else if(what == 1) { s.append(view); MStr want = ma; want.append(part); checkOne(s, want); }
+    else { s.prepend(view); MStr want = part; want.append(ma); checkOne(s, want); }
     checkOne(a, ma);
     break; }
   case 0: { // concatenation operators build new values and leave the operands alone
